@@ -122,7 +122,7 @@ theorem wf_push (p : CharPartition) (hp : p.WF) (a b : Nat) (hab : a ≤ b) (hb 
     rw [← hsplit] at hsorted hs
     obtain ⟨_, hl1, hlt⟩ := sorted_append.1 hsorted
     have hlw := (sorted_singleton.1 hl1).1
-    have := hlast last rfl
+    have := hlast last hl
     rcases List.mem_append.1 hs with hs | hs
     · have := hlt s hs last (by simp); omega
     · simp only [List.mem_singleton] at hs
@@ -252,6 +252,7 @@ theorem class_of_set_spec (p : CharPartition) (hp : p.WF) (s : CharSet) (hs : s.
   · intro e; simp only [classOfSet]; cases p.intervalCover s <;> simp
     intro h; exact h.symm
   · simp only [classOfSet, CPSpec.classOfSet, h4]
+    cases CPSpec.intervalCover p.list s <;> rfl
 
 /-- corollary for `good_char_set` -/
 theorem good_char_set_spec (p : CharPartition) (hp : p.WF) (s : CharSet) (hs : s.WF) :
@@ -268,6 +269,7 @@ theorem good_char_set_spec (p : CharPartition) (hp : p.WF) (s : CharSet) (hs : s
       simp only [Bool.false_eq_true, false_iff, not_or]
       exact this
   · simp only [goodCharSet, CPSpec.goodCharSet, h4]
+    cases CPSpec.intervalCover p.list s <;> rfl
 
 /-! ### the complement witness -/
 
@@ -308,7 +310,8 @@ theorem valid_class_id_spec (p : CharPartition) (hp : p.WF) (c : ClassId) :
   have hcs := hp.1
   cases c with
   | interval i =>
-    simp only [validClassId, NonEmptyClass, len, decide_eq_true_eq]
+    simp only [validClassId, NonEmptyClass, decide_eq_true_eq]
+    simp only [len]
     constructor
     · intro hi
       have hw := hcs.get_wf hi
@@ -385,9 +388,10 @@ theorem pick_in_class_spec (p : CharPartition) (hp : p.WF) (c : ClassId) :
     (∀ x, p.pickInClass c = some x → x ≤ MAX_CHAR ∧ p.classOfChar x = c) := by
   cases c with
   | interval i =>
-    simp only [pickInClass, pick, validClassId, len, Option.map_eq_none_iff, decide_eq_false_iff_not,
+    simp only [pickInClass, pick, validClassId, Option.map_eq_none_iff, decide_eq_false_iff_not,
       Nat.not_lt, Option.map_eq_some_iff]
-    refine ⟨by simp [Nat.not_lt], ?_⟩
+    simp only [len]
+    refine ⟨by simp, ?_⟩
     rintro x ⟨s, hs, rfl⟩
     obtain ⟨hi, rfl⟩ := List.getElem?_eq_some_iff.1 hs
     have hw := hp.1.get_wf hi
@@ -397,8 +401,7 @@ theorem pick_in_class_spec (p : CharPartition) (hp : p.WF) (c : ClassId) :
     cases he : p.emptyComplement with
     | true => simp
     | false =>
-      simp only [Bool.false_eq_true, if_false, reduceCtorEq, Bool.not_false, false_iff,
-        Option.some.injEq]
+      simp only [Bool.false_eq_true, if_false, reduceCtorEq, Bool.not_false, Option.some.injEq]
       refine ⟨by simp, ?_⟩
       rintro x rfl
       exact pick_complement_mem p hp he
